@@ -576,6 +576,12 @@ namespace Pistache::Http
             buffer.reset();
             cursor.reset();
 
+            for (auto& step : allSteps)
+            {
+                if (step)
+                    step->reset();
+            }
+
             currentStep = 0;
         }
 
